@@ -24,6 +24,7 @@ type grant struct {
 	ev   int
 	name string // hex
 	s    int
+	size *int32
 }
 
 func NewGen(seed uint64, stream uint64, p *Profile) *Gen {
@@ -141,7 +142,7 @@ func (g *Gen) observe(x *Exec, i int, ev Ev) {
 		f := strings.Fields(o)
 		switch {
 		case len(f) >= 3 && f[0] == "r" && f[1] == "lock" && f[2] == "1" && (ev.Op == "try" || ev.Op == "lock"):
-			g.grants = append(g.grants, grant{ev: i, name: ev.Name, s: ev.S})
+			g.grants = append(g.grants, grant{ev: i, name: ev.Name, s: ev.S, size: ev.Size})
 			g.Stats["grant"]++
 		case len(f) >= 2 && f[0] == "r" && f[1] == "blocked":
 			g.blocked = append(g.blocked, i)
@@ -260,6 +261,15 @@ func (g *Gen) Next(x *Exec, i int, prev *Ev) (Ev, bool) {
 				s = s0
 			}
 			ev = Ev{Op: op, S: s, Name: pick(g.r, g.p.Names), Size: pick(g.r, g.p.Sizes), Lt: pick(g.r, g.p.Lts)}
+			// mostly ask for the size the name was last GRANTED with: otherwise most requests on a live lock are size mismatches
+			if g.p.StickySizePct > 0 && g.r.IntN(100) < g.p.StickySizePct {
+				for j := len(g.grants) - 1; j >= 0; j-- {
+					if g.grants[j].name == ev.Name {
+						ev.Size = g.grants[j].size
+						break
+					}
+				}
+			}
 			if op == "lock" {
 				ev.Wt = pick(g.r, g.p.Wts)
 			}
